@@ -95,6 +95,13 @@ def order_case(ctx, rng):
     from plotink import ebb_serial
     v, t, cls = gen_pair(rng)
     want = v >= t
+    pad_v = pad_t = None
+    if rng.random() < 0.15:
+        # the same numbers written with leading zeros in some fields ("02.9.9")
+        pad_v = ".".join(("%0" + str(rng.choice((1, 2, 3))) + "d") % c for c in v)
+        if rng.random() < 0.5:
+            pad_t = ".".join(("%0" + str(rng.choice((1, 2, 3))) + "d") % c for c in t)
+        cls_pad = "order:fields written with leading zeros"
     n = max(len(v), len(t))
     padded = tuple(v) + (0,) * (n - len(v)) >= tuple(t) + (0,) * (n - len(t))
     undecided = padded != want      # "3.0" against "3.0.0": equal or older, depending on whether a missing
@@ -102,16 +109,18 @@ def order_case(ctx, rng):
     #                                 agreement of the two layers is decided for such pairs
     # EBB3 layer
     obj = ebb3mon.monitored_class()()
-    obj.parse_version(PRODUCT + vstr(v) + rng.choice(["", " ", "\r\n"]))
-    got3 = obj.min_version(vstr(t))
+    sv, st = pad_v or vstr(v), pad_t or vstr(t)
+    obj.parse_version(PRODUCT + sv + rng.choice(["", " ", "\r\n"]))
+    got3 = obj.min_version(st)
     # legacy layer, through the wire
     log = serialsim.EventLog()
-    board = serialsim.Legacy2xBoard(version=vstr(v))
+    board = serialsim.Legacy2xBoard(version=sv)
     port = serialsim.FakePort(board, log)
-    got2 = ebb_serial.min_version(port, vstr(t))
-    ctx.case(["order", "order:" + cls, "order:newer-or-equal" if want else "order:older"], ("order", v, t))
+    got2 = ebb_serial.min_version(port, st)
+    ctx.case(["order", "order:" + cls, "order:newer-or-equal" if want else "order:older"] +
+             ([cls_pad] if pad_v else []), ("order", v, t, sv, st))
     ctx.count("monitor:version comparisons checked", 2)
-    w = {"part": "order", "version": vstr(v), "threshold": vstr(t), "expected": want, "ebb3": got3, "legacy": got2}
+    w = {"part": "order", "version": sv, "threshold": st, "expected": want, "ebb3": got3, "legacy": got2}
     if undecided:
         ctx.tag("order: missing trailing components that are zero in the other number (only layer agreement decided)")
     elif got3 is not want:
@@ -129,7 +138,9 @@ HALF_EBB = ["WEBBED-3000 bootloader", "EBB", "EBBv13_and_above EB", "xEBBx ready
             "EBBv13 Firmware Version "]
 NON_ASCII = ["\xff\xfe\r\n", "EBB\xe9v13 Firmware Version 3.0.2\r\n", "\x80\x81\x82\r\n", "\xc3\xa9\r\n"]
 VERSIONS = ["3.0.2", "3.0.3", "3.0.10", "3.1.0", "3.10.0", "10.0.0", "4.0.0", "3.0.1", "3.0.0", "2.8.1", "2.10.0",
-            "2.9.9", "2.99.99", "0.0.0", "3.0.02", "03.0.2"]
+            "2.9.9", "2.99.99", "0.0.0", "3.0.02", "03.0.2",
+            # zero-padded fields (numerically 2.9.9, 3.0.1, ...): the NUMBER decides, not the digit count
+            "02.9.9", "3.00.1", "3.0.01", "002.10.0", "03.00.00", "3.0.010", "03.01.00"]
 
 
 def triple(text):
@@ -433,7 +444,7 @@ def run(ctx):
             from .. import noise
             noise.burst(ctx, rng, exclude=('versions', 'discovery'))
         gate_case(ctx, rng)
-    for cls in ("order:equal", "order:different number of components", "order:differ in one component", "order:digit-length trap (string order differs)",
+    for cls in ("order:equal", "order:fields written with leading zeros", "order:different number of components", "order:differ in one component", "order:digit-length trap (string order differs)",
                 "order:grid x grid", "order:major decides", "order:random multi-digit", "order:older",
                 "order:newer-or-equal", "identity:EBB", "identity:silent", "identity:non-EBB",
                 "identity:non-EBB (text contains EBB, no version)", "identity:non-EBB (non-ASCII bytes)",
